@@ -68,6 +68,10 @@ def run(res, tier, seed, shard, nshards):
     jobs.append(("payload", 1.5, 1))
     jobs.append(("payload", 2.0, None))
     jobs.append(("stop-after-end", 1.0, 0.4))
+    for interval in (0.5, 1.0, 2.5):
+        for behaviour in ("silent", "slow-1.5x", "slow-3.2x", "prompt"):
+            for to in (None, interval * 0.4):
+                jobs.append(("periodic", interval, to, behaviour))
     for ji, job in enumerate(jobs):
         if ji % nshards != shard:
             continue
@@ -81,6 +85,8 @@ def run(res, tier, seed, shard, nshards):
             settings_case(res, W, job[0], job[1], job[2])
         elif job[0] == "payload":
             payload_case(res, W, rng, job[1], job[2])
+        elif job[0] == "periodic":
+            periodic_case(res, W, rng, job[1], job[2], job[3])
         else:
             stop_case(res, W, rng, job[1], job[2])
 
@@ -335,3 +341,38 @@ def stop_case(res, W, rng, interval, to):
         wrote_after = [(t, f.opcode) for (t, f) in srv.client_frames if t > out["end"] + 1e-9]
         if wrote_after or out.get("live"):
             res.violation("ping-after-end", f"ending {ending}: frames written after the end {wrote_after}, live ping threads {out.get('live')}", case, ending=ending)
+
+
+def periodic_case(res, W, rng, interval, to, behaviour):
+    """pings are periodic for as long as the connection is up - also when the
+    peer never answers or answers slower than the interval (no ping_timeout:
+    nothing ends the connection; with a timeout the run ends at the report)"""
+    lat = {"silent": None, "slow-1.5x": interval * 1.5, "slow-3.2x": interval * 3.2, "prompt": 0.01}[behaviour]
+    dur = 14 * interval
+    plan = [dict(outcome="ok", script=[(dur, "close", b"")], pong=lat)]
+    kw = dict(ping_interval=interval, ping_payload="pp")
+    if to:
+        kw["ping_timeout"] = to
+    run, out, failure, S = execute(plan, kw, "loop-first", dur + 60)
+    res.case(("periodic", interval, to, behaviour), nontrivial=True)
+    res.count("periodic_runs")
+    case = {"kind": "periodic", "interval": interval, "timeout": to, "peer": behaviour}
+
+    def bad(kind, detail, **kw_):
+        res.violation(kind, f"periodic pings interval={interval} timeout={to} peer={behaviour}: {detail}", case, peer=behaviour, with_timeout=bool(to), **kw_)
+    if failure is not None or run is None or not run.servers:
+        bad("no-return", str(failure))
+        return
+    srv = run.servers[0]
+    end = out.get("end")
+    errs = [(t, a[0]) for (t, n, a, ci, ac) in run.trace if n == "on_error"]
+    if not to or behaviour == "prompt":
+        # nothing may end the connection early, and pings must keep their period throughout
+        if errs:
+            bad("unexpected-error", f"{[(t, type(e).__name__, str(e)) for t, e in errs][:2]}")
+            return
+        check_pings(res, bad, srv, interval, b"pp", dur)
+        if len(srv.pings) < 12:
+            bad("too-few-pings", f"{len(srv.pings)} pings in {dur}s (interval {interval}): {[p[0] for p in srv.pings]}")
+    else:
+        check_pings(res, bad, srv, interval, b"pp", None)
